@@ -1,4 +1,5 @@
 import ZV.Base
+import ZV.Generated.C08
 /-!
   Model of `x509/cert_pool.go` (CertPool), branch for branch.
 
@@ -31,7 +32,7 @@ def newPool : Pool := { bySubjectKeyId := fun _ => [], byName := fun _ => [], by
 /-- `m[k] = v` -/
 def setKey {α : Type} (m : Nat → α) (k : Nat) (v : α) : Nat → α := fun x => if x = k then v else m x
 
-/-- `(*CertPool).AddCert` (for a non-nil certificate; the nil-argument panic is not modelled). -/
+/-- `(*CertPool).AddCert` below the `cert == nil` test (receiver and certificate non-nil). -/
 def addCert (s : Pool) (cert : Cert) : Pool :=
   match s.bySHA256 cert.fp with
   | some _ => s
@@ -44,13 +45,48 @@ def addCert (s : Pool) (cert : Cert) : Pool :=
       byName := setKey s.byName cert.subject (s.byName cert.subject ++ [n])
       bySHA256 := setKey s.bySHA256 cert.fp (some n) }
 
-/-- `(*CertPool).AppendCertsFromPEM`: the input is the sequence of PEM blocks that
-    `pem.Decode` yields; `some c` = a header-less CERTIFICATE block that parses to `c`,
-    `none` = any block that is skipped (`continue`: other type, headers, unparseable). -/
-def appendCertsFromPEM (s : Pool) : List (Option Cert) → Pool × Bool
+/-- `(*CertPool).AddCert` with its two ways to panic: `cert == nil` is tested FIRST (explicit
+    `panic("adding nil Certificate to CertPool")`, also on a nil receiver), then `s.bySHA256` dereferences the receiver. -/
+def addCertOpt (s : Option Pool) (cert : Option Cert) : Res Pool :=
+  match cert with
+  | none => .panic
+  | some c =>
+    match s with
+    | none => .panic
+    | some p => .ok (addCert p c)
+
+/-- one `*pem.Block` as `AppendCertsFromPEM` sees it: `Type`, `len(Headers)`, and the result of
+    `ParseCertificate(block.Bytes)` (`none` = error).  `pem.Decode` itself (encoding/pem: text between
+    blocks is skipped, `nil` block = end of input) is the list structure. -/
+structure Block where
+  typ : String
+  nHeaders : Nat
+  parsed : Option Cert
+  deriving Repr, DecidableEq
+
+/-- the `continue` test `block.Type != "CERTIFICATE" || len(block.Headers) != 0`; literal and bound are the
+    T1 facts `ZV.Generated.C08.pemBlockType` / `pemHeaderBound` read from the source on every run. -/
+def Block.skipped (b : Block) : Bool :=
+  b.typ != ZV.Generated.C08.pemBlockType || b.nHeaders != ZV.Generated.C08.pemHeaderBound
+
+/-- `(*CertPool).AppendCertsFromPEM` on a non-nil receiver: the loop over the blocks `pem.Decode` yields.
+    Wrong type or headers: `continue`; `ParseCertificate` error: `continue`; else `s.AddCert(cert); ok = true`. -/
+def appendCertsFromPEM (s : Pool) : List Block → Pool × Bool
   | [] => (s, false)
-  | none :: bs => appendCertsFromPEM s bs
-  | some c :: bs => ((appendCertsFromPEM (addCert s c) bs).1, true)
+  | b :: bs =>
+    if b.skipped then appendCertsFromPEM s bs
+    else
+      match b.parsed with
+      | none => appendCertsFromPEM s bs
+      | some c => ((appendCertsFromPEM (addCert s c) bs).1, true)
+
+/-- `AppendCertsFromPEM` on ANY receiver: a nil `*CertPool` is dereferenced (by `AddCert`) at the first block
+    that is not skipped and parses; blocks before it are skipped without touching the receiver. -/
+def appendCertsFromPEMOpt (s : Option Pool) (bs : List Block) : Res (Option Pool × Bool) :=
+  match s with
+  | some p => .ok (some (appendCertsFromPEM p bs).1, (appendCertsFromPEM p bs).2)
+  | none =>
+    if bs.any (fun b => !b.skipped && b.parsed.isSome) then .panic else .ok (none, false)
 
 /-- `(*CertPool).Sum` (receiver and argument may be nil). -/
 def sum (s other : Option Pool) : Pool :=
@@ -90,6 +126,7 @@ structure Parents where
   parents : List Nat
   errCert : Option Cert
   errNil : Bool
+  valid : Bool      -- `cert.ValidSignature` of the CHILD after the call (side effect)
   deriving Repr, DecidableEq
 
 /-- the candidate loop; `s.certs[c]` out of range would be a Go panic. -/
@@ -99,23 +136,24 @@ def parentsLoop (chk : Cert → Cert → Bool) (certs : List Cert) (cert : Cert)
     match certs[c]? with
     | none => .panic
     | some p =>
-      if chk cert p then parentsLoop chk certs cert { acc with parents := acc.parents ++ [c], errNil := true } cs
+      if chk cert p then parentsLoop chk certs cert { acc with parents := acc.parents ++ [c], errNil := true, valid := true } cs
       else parentsLoop chk certs cert { acc with errCert := some p, errNil := false } cs
 
-/-- `(*CertPool).findVerifiedParents`; `chk child parent` = `child.CheckSignatureFrom(parent) == nil`. -/
-def findVerifiedParents (chk : Cert → Cert → Bool) (s : Option Pool) (cert : Cert) : Res Parents :=
+/-- `(*CertPool).findVerifiedParents`; `chk child parent` = `child.CheckSignatureFrom(parent) == nil`,
+    `v0` = `cert.ValidSignature` before the call (the loop sets it to true when a candidate verifies, never clears it). -/
+def findVerifiedParents (chk : Cert → Cert → Bool) (s : Option Pool) (cert : Cert) (v0 : Bool := false) : Res Parents :=
   match s with
-  | none => .ok { parents := [], errCert := none, errNil := true }
+  | none => .ok { parents := [], errCert := none, errNil := true, valid := v0 }
   | some p =>
     let c1 : List Nat := if cert.akid ≠ 0 then p.bySubjectKeyId cert.akid else []
     let candidates := if c1.length = 0 then p.byName cert.issuer else c1
-    parentsLoop chk p.certs cert { parents := [], errCert := none, errNil := true } candidates
+    parentsLoop chk p.certs cert { parents := [], errCert := none, errNil := true, valid := v0 } candidates
 
 /-! ### operation sequences over pool variables -/
 
 inductive Op where
-  | add (r : Nat) (c : Cert)                    -- regs[r].AddCert(c)
-  | pem (r : Nat) (blocks : List (Option Cert))  -- regs[r].AppendCertsFromPEM(…)
+  | add (r : Nat) (c : Option Cert)             -- regs[r].AddCert(c)   (`none` = AddCert(nil))
+  | pem (r : Nat) (blocks : List Block)         -- regs[r].AppendCertsFromPEM(…)
   | sum (dst a b : Nat)                          -- regs[dst] = regs[a].Sum(regs[b])
   deriving Repr
 
@@ -125,17 +163,15 @@ abbrev Regs := Nat → Option Pool
     The second component is the `ok` result of AppendCertsFromPEM. -/
 def step (regs : Regs) : Op → Res (Regs × Option Bool)
   | .add r c =>
-    match regs r with
-    | none => .panic
-    | some p => .ok (setKey regs r (some (addCert p c)), none)
+    match addCertOpt (regs r) c with
+    | .ok p => .ok (setKey regs r (some p), none)
+    | .err => .err
+    | .panic => .panic
   | .pem r bs =>
-    match regs r with
-    | none =>
-      -- a nil receiver is only dereferenced when a certificate is actually added
-      if bs.any Option.isSome then .panic else .ok (regs, some false)
-    | some p =>
-      let res := appendCertsFromPEM p bs
-      .ok (setKey regs r (some res.1), some res.2)
+    match appendCertsFromPEMOpt (regs r) bs with
+    | .ok (p, ok) => .ok (setKey regs r p, some ok)
+    | .err => .err
+    | .panic => .panic
   | .sum d a b => .ok (setKey regs d (some (sum (regs a) (regs b))), none)
 
 def run (regs : Regs) : List Op → Res (Regs × List Bool)
